@@ -35,10 +35,13 @@ class VClock(object):
   def time(self):
     return self.now
 
+  oversleep = 0.0
+
   def sleep(self, dt):
     self.slept.append(dt)
     if dt > 0:
-      self.now += dt
+      # the thread may be woken up late (scheduler stall, suspended VM, clock step): the clock then shows more
+      self.now += dt + self.oversleep
 
 
 @st.composite
@@ -62,7 +65,7 @@ def bucket_cases(draw):
     elif k == 3:
       ops.append(['burst', draw(st.sampled_from([2, 5, 20, 200, 1100, 2500]))])
     elif k <= 5:
-      ops.append(['drain_blocking'])
+      ops.append(['drain_blocking', draw(st.sampled_from([0, 0, 0, 0.5, 120, 1000000]))])
     elif k == 6:
       ops.append(['peek'])
     elif k <= 9:
@@ -155,8 +158,15 @@ def execute_bucket(ctx, case):
         ref_refill()
         before = clock.now
         nsleeps = len(clock.slept)
-        ok = bucket.drain(1, blocking=True)
-        waited = clock.now - before
+        clock.oversleep = float(op[1]) if len(op) > 1 else 0.0
+        try:
+          ok = bucket.drain(1, blocking=True)
+        finally:
+          late = clock.oversleep if len(clock.slept) > nsleeps and clock.slept[-1] > 0 else 0.0
+          clock.oversleep = 0.0
+        waited = clock.now - before - late       # what the bucket asked to sleep
+        if late:
+          flags.add('woken up late from a blocking drain')
         allowed = max(0.0, 1 - ref_level) / e['rate']
         if ref_valid and waited > allowed + 1e-9 + EPS * allowed:
           ctx.fail('C20:blocking-waits-too-long',
